@@ -38,7 +38,8 @@ func (c *Conn) writeCopyOK(tag string, data *imap.CopyData) error {
 	}
 
 	enc.Atom(tag).SP().Atom("OK").SP()
-	if data != nil {
+	// An empty UID set cannot be encoded: omit COPYUID when nothing was copied
+	if data != nil && len(data.SourceUIDs) > 0 && len(data.DestUIDs) > 0 {
 		enc.Special('[')
 		enc.Atom("COPYUID").SP().Number(data.UIDValidity).SP().NumSet(data.SourceUIDs).SP().NumSet(data.DestUIDs)
 		enc.Special(']').SP()
